@@ -419,14 +419,16 @@ async fn run_case(case: &Case) -> CaseOut {
                         src = 2000;
                         0
                     }
+                    // mis-flagged fragments: "neither completes the request successfully nor reaches the handler" - whether
+                    // the request fails at once or the fragment is ignored and the request stays outstanding is left open
                     Dev::FirFlipped => {
                         f.fir = !f.fir;
-                        1
+                        2
                     }
                     Dev::NoConOnNonFin => {
                         if !f.fin {
                             f.con = false;
-                            1
+                            2
                         } else {
                             f.seq = (f.seq + 3) & 0x0F;
                             0
@@ -441,7 +443,7 @@ async fn run_case(case: &Case) -> CaseOut {
                         } else {
                             f.con = true;
                             if case.task == TaskKind::Command {
-                                1
+                                2
                             } else {
                                 4
                             }
@@ -793,7 +795,7 @@ async fn run_case(case: &Case) -> CaseOut {
 
 pub fn run<C: Codec>(tier: Tier) -> i32 {
     let mut ctx = Ctx::<C>::new("C15", tier);
-    ctx.assumptions.push("fragments that are not well-formed responses at the transport/application-header level (UNS bit on function 129, non-response function codes) may either fail the outstanding task or be ignored: from then on only 'nothing unacceptable is delivered' is asserted; a READ answered with an early FIN is a valid shorter answer; a response arriving exactly at the timeout instant is not judged".into());
+    ctx.assumptions.push("fragments that are not well-formed responses at the transport/application-header level (UNS bit on function 129, non-response function codes) and mis-flagged responses (FIR/FIN/CON combinations that cannot be right) may either fail the outstanding task or be ignored: from then on only 'nothing unacceptable is delivered' is asserted; a READ answered with an early FIN is a valid shorter answer; a response arriving exactly at the timeout instant is not judged".into());
     ctx.run::<Accept>();
     ctx.finish()
 }
